@@ -607,7 +607,9 @@ func VerifQueueMisuse() {
 		r.Done()
 	case 10: // an oversized ACK changes nothing
 		p0, _ := q.Pending()
-		e := q.ACK(uint(p0) + 1 + uint(verifChoose(2)))
+		n := verifUint("ackcount") // any count above the number of pending events (full 64 bit)
+		verifAssume(n > uint(p0))
+		e := q.ACK(n)
 		verifAssert(e != nil && isKind(e, ACKTooMany), "ACK of more events than pending: ACKTooMany")
 		p1, e1 := q.Pending()
 		a1, e2 := q.Active()
